@@ -12,7 +12,7 @@ OV == {"x", "y", "z"}
 Ops == [op : {"new", "inc", "add", "total", "twice", "readn", "writen", "opn", "pushitems", "bumpvia", "setb", "inlist", "unwrap_reassign",
               "label", "tagop", "subn", "divn", "dec", "fork_inc"}, v : OV]
        \cup [op : {"alias", "fork", "me", "is", "adopt", "read_op_inc", "share", "pick_inc"}, v : OV, w : OV]
-       \cup [op : {"pair_bump_a", "pair_read_b", "pair_b_inc", "outside", "finc", "ftotal", "fnew", "ffork", "localclass", "localclass2", "swapnew"}]
+       \cup [op : {"pair_bump_a", "pair_read_b", "pair_b_inc", "outside", "finc", "ftotal", "fnew", "ffork", "localclass", "localclass2", "swapnew", "linkcut", "linkrelink", "linkbump", "linkcutlist"}]
 
 VARIABLE hist
 Init == hist = <<>>
@@ -76,6 +76,14 @@ Swap ==
                          Let("first", Bin("+", V("first"), I(1000))), Let("steps", Bin("+", V("steps"), V("first")))>>]>>,
      methods |-> <<Method("sum", <<>>, "int", <<Ret(Bin("+", Bin("*", SelfF("first"), I(100)), Bin("+", SelfF("second"), SelfF("steps"))))>>)>>]
 
+(* a linked structure: objects that hold objects.  Cutting a link (writing nil over a slot that holds an object) changes that *)
+(* slot and nothing else: the object that was linked keeps its own links, whoever else still refers to it                    *)
+Link ==
+    [k |-> "class", n |-> "Link", export |-> FALSE,
+     fields |-> <<Field("v", "int"), Field("next", "Self?")>>,
+     ctor |-> <<[ps |-> <<P("v0", "int")>>, b |-> <<SetSelf("v", V("v0")), SetSelf("next", Nil)>>]>>,
+     methods |-> <<Method("tail_v", <<>>, "int", <<If(Bin("==", SelfF("next"), Nil), <<Ret(SelfF("v"))>>), Ret(MCall(Get(SelfF("next")), "tail_v", <<>>))>>)>>]
+
 (* a function that declares its own class and returns a fresh instance's state: it can be called any number of times *)
 LocalClassFn ==
     Let("lcf", Fn("lcf", <<P("s", "int")>>, "int",
@@ -93,7 +101,10 @@ LocalClassFn2 ==
                          Method("again", <<>>, "Self", <<Ret(New("Self", <<Bin("+", SelfF("q"), I(1))>>))>>)>>],
           Let("lo", New("Local", <<V("s")>>)), Let("l2", MCall(V("lo"), "again", <<>>)), Ret(MCall(V("l2"), "twice", <<>>))>>))
 Prologue == <<[k |-> "import", form |-> "names", path |-> "lib", names |-> <<"mk">>], LocalClassFn, LocalClassFn2,
-              Let("made", I(0)), Counter, Pair, Swap,
+              Let("made", I(0)), Counter, Pair, Swap, Link,
+              Let("l3", New("Link", <<I(3)>>)), Let("l2", New("Link", <<I(2)>>)), Let("l1", New("Link", <<I(1)>>)),
+              Assign(Fld(V("l2"), "next"), "=", V("l3")), Assign(Fld(V("l1"), "next"), "=", V("l2")),
+              LetT("lks", "[Link?...]", List(<<V("l2"), Nil>>)),
               Let("x", New("Counter", <<I(1)>>)), Let("f", Call(V("mk"), <<I(3)>>)),
               Let("y", New("Counter", <<I(2)>>)), Let("z", V("x")),
               Let("p", New("Pair", <<V("x")>>)),
@@ -104,7 +115,11 @@ Observe == ObsOne("x") \o ObsOne("y") \o ObsOne("z")
            \o <<Print(Bin("is", V("x"), V("y"))), Print(Bin("is", V("x"), V("z"))), Print(Bin("is", V("y"), V("z"))),
                 Print(Fld(Fld(V("p"), "a"), "n")), Print(MCall(V("p"), "has_b", <<>>)),
                 If(MCall(V("p"), "has_b", <<>>), <<Let("pbo", Get(Fld(V("p"), "b"))), Print(Bin("is", V("pbo"), V("x"))), Print(Bin("is", V("pbo"), V("y")))>>),
-                Print(MCall(V("ls"), "len", <<>>)), Print(V("made")), Print(Fld(V("f"), "n"))>>
+                Print(MCall(V("ls"), "len", <<>>)), Print(V("made")), Print(Fld(V("f"), "n")),
+                \* identity is per object, whatever the class: the first Counter is not the first Pair / the first Link
+                Print(Bin("is", V("x"), V("p"))), Print(Bin("is", V("y"), V("l1"))), Print(Bin("is", V("p"), V("l3"))),
+                Print(Fld(V("l1"), "v")), Print(Bin("==", Fld(V("l1"), "next"), Nil)), Print(Fld(V("l2"), "v")), Print(Bin("==", Fld(V("l2"), "next"), Nil)),
+                Print(Fld(V("l3"), "v")), Print(MCall(V("l1"), "tail_v", <<>>)), Print(MCall(V("l2"), "tail_v", <<>>))>>
 
 Stmts(o, k) ==
     CASE o.op = "new" -> <<Let(o.v, New("Counter", <<I(10 * k)>>))>>
@@ -152,6 +167,10 @@ Stmts(o, k) ==
       [] o.op = "ftotal" -> <<Print(MCall(V("f"), "total", <<>>))>>
       [] o.op = "swapnew" -> <<Let("sw", New("Swap", <<I(k), I(k + 1)>>)), Print(Fld(V("sw"), "first")), Print(Fld(V("sw"), "second")),
                                Print(Fld(V("sw"), "steps")), Print(MCall(V("sw"), "sum", <<>>))>>
+      [] o.op = "linkcut" -> <<Assign(Fld(V("l1"), "next"), "=", Nil)>>
+      [] o.op = "linkrelink" -> <<Assign(Fld(V("l1"), "next"), "=", V("l3"))>>
+      [] o.op = "linkbump" -> <<Assign(Fld(V("l3"), "v"), "+", I(10 * k))>>
+      [] o.op = "linkcutlist" -> <<Let("k0", I(0)), Assign(Idx(V("lks"), V("k0")), "=", Nil)>>
       [] o.op = "fnew" -> <<Let("f", Call(V("mk"), <<I(4 + k)>>)), Print(MCall(V("f"), "inc", <<>>))>>
 
 RECURSIVE Steps(_, _)
